@@ -189,6 +189,9 @@ func (tt *TermTable) FP(f float64) *Term {
 	return tt.intern(&Term{Op: OpConst, W: SFP, F: f})
 }
 
+// FPBits returns the float64 constant with the given IEEE bit pattern.
+func (tt *TermTable) FPBits(b uint64) *Term { return tt.FP(math.Float64frombits(b)) }
+
 func isTrue(t *Term) bool  { return t.Op == OpConst && t.W == SBool && t.C == 1 }
 func isFalse(t *Term) bool { return t.Op == OpConst && t.W == SBool && t.C == 0 }
 
